@@ -268,10 +268,10 @@ PROPS["C07"] = simple(
     "ui.State started through Subcommand (open / feed) against generated multi-host worlds (threads with 0..8 ancestors, 0..15 paged replies, actors with 0..30 outbox activities, "
     "multi-author posts, audiences, missing/failing collections, 0..30 % anomalous mentions), then 150 (quick) / 400 (thorough) key tokens per session: 70 % navigation (j k g h l space "
     "c r a o p b), numbers incl. 0, 0..39 and 19..22-digit ones followed by Enter, '.', another key, Esc or Backspace, :open <address|@handle|nowhere>, :feed <name>, :garbage, Esc, "
-    "Backspace, arbitrary bytes 0..255; terminal resizes in between; preload_amount in {1, 2, 5} (one process each). Non-trivial: every session; distinct = (world, entry, length).",
+    "Backspace, arbitrary bytes 0..255; terminal resizes in between; preload_amount in {1, 2, 5} (one process each). Non-trivial: every compared state; distinct = (world, highlighted item, kind of page, mode, key class) situations in which UI and model were compared.",
     variants=ui_variants([5, 1, 2]),
     tools=["dumphook"],
-    floor=dict(evaluations=5000, distinct=20, tokens_checked=2000),
+    floor=dict(evaluations=5000, distinct=2000, tokens_checked=2000),
     timeout=dict(quick=600, thorough=3000),
     technique="runtime monitor: executable keymap reference model over the world's reference views, compared with the UI state after every key once loads have settled (logical quiescence)",
     level_text="After every key (and after background loads have settled: mode not loading/opening, no page load flag set, no connection in flight) the highlighted item, cursor position, "
